@@ -65,22 +65,26 @@ type Interp struct {
 	unwind   int
 	permute  bool
 
-	res     *PathResult
-	params  map[string]string
-	opq     int // opaque / blob counter
-	funcs   map[string]bool
-	cur     *frame
-	choices map[string]int
-	nowCnt  int
-	lastNow *Term
-	hooks   map[string]interface{} // per-path engine state for intrinsics
-	injUFs  map[string]bool
-	blobs   []*Blob
-	trace   bool
-	foreignErr map[*ssa.Global]bool
-	looseEq    bool
-	blobOfStr  map[*Term]*Blob
-	pinned     map[*Term]uint64 // terms whose value is fixed on this path by a value case-split
+	res          *PathResult
+	params       map[string]string
+	opq          int // opaque / blob counter
+	funcs        map[string]bool
+	cur          *frame
+	choices      map[string]int
+	nowCnt       int
+	lastNow      *Term
+	hooks        map[string]interface{} // per-path engine state for intrinsics
+	injUFs       map[string]bool
+	blobs        []*Blob
+	trace        bool
+	foreignErr   map[*ssa.Global]bool
+	looseEq      bool
+	known        map[*Term]bool
+	lb, ub       map[*Term]int64
+	axDone       map[int]bool
+	blobDistinct bool
+	blobOfStr    map[*Term]*Blob
+	pinned       map[*Term]uint64 // terms whose value is fixed on this path by a value case-split
 }
 
 func (in *Interp) addPC(t *Term) {
@@ -92,6 +96,108 @@ func (in *Interp) addPC(t *Term) {
 	}
 	in.pc = append(in.pc, t)
 	in.sol.Assert(t)
+	in.learn(t, true)
+}
+
+// learn records facts implied syntactically by the path condition (atoms and integer bounds), so that repeated
+// branch conditions are decided without a solver call.
+func (in *Interp) learn(t *Term, v bool) {
+	if in.known == nil {
+		in.known = map[*Term]bool{}
+		in.lb = map[*Term]int64{}
+		in.ub = map[*Term]int64{}
+	}
+	switch t.op {
+	case ONot:
+		in.learn(t.args[0], !v)
+		return
+	case OAnd:
+		if v {
+			for _, a := range t.args {
+				in.learn(a, true)
+			}
+			return
+		}
+	case OOr:
+		if !v {
+			for _, a := range t.args {
+				in.learn(a, false)
+			}
+			return
+		}
+	}
+	in.known[t] = v
+	setLB := func(x *Term, c int64) {
+		if old, ok := in.lb[x]; !ok || c > old {
+			in.lb[x] = c
+		}
+	}
+	setUB := func(x *Term, c int64) {
+		if old, ok := in.ub[x]; !ok || c < old {
+			in.ub[x] = c
+		}
+	}
+	if t.op == OILe || t.op == OILt {
+		a, b := t.args[0], t.args[1]
+		strict := int64(0)
+		if t.op == OILt {
+			strict = 1
+		}
+		if v {
+			if a.IsConst() {
+				setLB(b, a.i+strict)
+			}
+			if b.IsConst() {
+				setUB(a, b.i-strict)
+			}
+		} else { // not(a <= b) == b < a ; not(a < b) == b <= a
+			if b.IsConst() {
+				setLB(a, b.i+1-strict)
+			}
+			if a.IsConst() {
+				setUB(b, a.i-1+strict)
+			}
+		}
+	}
+}
+
+// decided returns (value, true) when the condition follows syntactically from recorded facts.
+func (in *Interp) decided(c *Term) (bool, bool) {
+	if in.known == nil {
+		return false, false
+	}
+	if v, ok := in.known[c]; ok {
+		return v, true
+	}
+	switch c.op {
+	case ONot:
+		if v, ok := in.decided(c.args[0]); ok {
+			return !v, true
+		}
+	case OILe, OILt:
+		a, b := c.args[0], c.args[1]
+		strict := int64(0)
+		if c.op == OILt {
+			strict = 1
+		}
+		if a.IsConst() {
+			if lb, ok := in.lb[b]; ok && a.i+strict <= lb {
+				return true, true
+			}
+			if ub, ok := in.ub[b]; ok && ub < a.i+strict {
+				return false, true
+			}
+		}
+		if b.IsConst() {
+			if ub, ok := in.ub[a]; ok && ub <= b.i-strict {
+				return true, true
+			}
+			if lb, ok := in.lb[a]; ok && lb > b.i-strict {
+				return false, true
+			}
+		}
+	}
+	return false, false
 }
 
 // feasible checks pc ∧ extra.
@@ -244,6 +350,9 @@ func (in *Interp) pinnedConst(t *Term) *Term {
 func (in *Interp) branch(fr *frame, site ssa.Instruction, c *Term) bool {
 	if c.IsConst() {
 		return c.BoolVal()
+	}
+	if v, ok := in.decided(c); ok {
+		return v
 	}
 	if fr != nil && site != nil {
 		if fr.forks == nil {
